@@ -9,7 +9,8 @@ use crate::out::Run;
 use crate::peers::{ev_str, reason_name};
 use crate::rng::Rng;
 use anemo::types::PeerEvent;
-use anemo::{Config, PeerId};
+use anemo::{Config, PeerId, Request};
+use bytes::Bytes;
 use serde_json::json;
 use std::sync::{Arc, Mutex};
 use std::time::Duration;
@@ -515,6 +516,55 @@ pub fn run_c09(run: &mut Run) -> anyhow::Result<()> {
     let p = crate::streams::PANICS.load(std::sync::atomic::Ordering::SeqCst);
     if p > 0 {
         run.oracle_fail(json!({"kind": "panic during view histories", "count": p}));
+    }
+    handler_panics(run, if q { 3 } else { 60 })?;
+    Ok(())
+}
+
+/// An application handler panics while serving a request.  Whatever the library makes of that (it
+/// propagates the panic and the node's network goes down), the views must stay mutual: nobody may keep
+/// listing a peer that no longer lists it, and whoever is listed must be reachable.
+fn handler_panics(run: &mut Run, cases: u64) -> anyhow::Result<()> {
+    for case in 0..cases {
+        let seed = run.seed ^ 0x9a1c ^ (case << 16);
+        run.mark(&format!("scenario handler_panics case {case} seed {} (re-run with ./check C09 --seed <seed>)", run.seed));
+        let idle = 2_000 + 500 * (case % 3);
+        let rt = paused_rt();
+        let o: anyhow::Result<serde_json::Value> = rt.block_on(async move {
+            let fabric = Fabric::new(seed);
+            let a = start_node(&fabric, seed, 1, config_idle(idle))?;
+            let b = start_node(&fabric, seed, 2, config_idle(idle))?;
+            let c = start_node(&fabric, seed, 3, config_idle(idle))?;
+            if case % 2 == 0 {
+                a.net.connect(b.addr).await?;
+            } else {
+                b.net.connect(a.addr).await?;
+            }
+            c.net.connect(a.addr).await?;
+            tokio::time::sleep(Duration::from_millis(300)).await;
+            let _ = tokio::time::timeout(Duration::from_secs(10), b.net.rpc(a.id, Request::new(Bytes::from_static(b"p")).with_header("x-id", "boom").with_header("x-panic", "1"))).await;
+            tokio::time::sleep(Duration::from_millis(idle + 2_000)).await;
+            let lists = |x: &Node, y: &Node| x.net.peers().contains(&y.id);
+            let mut pairs = vec![];
+            for (nx, x) in [("A", &a), ("B", &b), ("C", &c)] {
+                for (ny, y) in [("A", &a), ("B", &b), ("C", &c)] {
+                    if nx != ny && lists(x, y) {
+                        let back = lists(y, x);
+                        let rpc = tokio::time::timeout(Duration::from_secs(10), x.net.rpc(y.id, Request::new(Bytes::from_static(b"q")).with_header("x-id", format!("{nx}{ny}")))).await.map(|r| r.is_ok()).unwrap_or(false);
+                        pairs.push(json!({"who": nx, "lists": ny, "listed_back": back, "rpc_ok": rpc}));
+                    }
+                }
+            }
+            Ok(json!({"pairs": pairs, "a_closed": a.net.is_closed()}))
+        });
+        drop(rt);
+        let o = o?;
+        run.eval(&format!("handler-panics {case}"), true);
+        let bad: Vec<&serde_json::Value> = o["pairs"].as_array().unwrap().iter().filter(|p| p["listed_back"] != json!(true) || p["rpc_ok"] != json!(true)).collect();
+        run.count("handler-panics", if bad.is_empty() { "views-mutual" } else { "one-sided" });
+        if !bad.is_empty() {
+            run.oracle_fail(json!({"kind": "after an application handler panicked a node keeps listing a peer that does not list it back / cannot be reached", "one_sided": bad, "observed": o.clone(), "seed": run.seed, "case": case}));
+        }
     }
     Ok(())
 }
